@@ -275,7 +275,7 @@ class GlobalizedNewtonMethod(NewtonMethod):
         for it in range(max_it):
             next_iterate = Iterate(
                 problem, params, iterate.x - dx, iterate.y - dy, iterate.eval
-            )
+            ).clipped()
 
             next_func_value = self.func.value_at(next_iterate, self.rho)
             next_res_value = 0.5 * np.dot(next_func_value, next_func_value)
